@@ -56,6 +56,7 @@ def new_dev():
     return {"t1_running": False, "c_np": None, "attached": {"m1": None, "m2": None}, "seq": {"m1": 0, "m2": 0},
             "load_time": {"m1": None, "m2": None}, "pending_enable": {"m1": [], "m2": []},
             "timeout": {}, "restore_arm": {}, "dl": [], "dl_base_known": True,
+            "t1_pause": None,      # pending timed resume of timer t1
             "sg2_rot": False,      # shot group sg2: rotation is off until ev_sg2_rot_on, from config at every mode start
             "sq": {},              # score queue sq_pts: player -> undelivered points [certainly queued, possibly queued,
                                    #   queued after ball_ending stopped waiting for the queue]
@@ -360,9 +361,14 @@ def ach_unselect(x, n):
 TICK = "m1_t1_tick"
 
 
+T1_PAUSE = 1.0
+
+
 def _t1_done(x):
     if x.ps["vars"].get(TICK, 0) >= T1_END:
+        # timer_complete() stops the timer (which also cancels a timed pause)
         x.dev["t1_running"] = False
+        x.dev["t1_pause"] = None
         x.emits.append("timer_t1_complete")
         return True
     return False
@@ -374,10 +380,19 @@ def t1_start(x):
     if _t1_done(x):
         return
     x.dev["t1_running"] = True
+    x.dev["t1_pause"] = None
 
 
 def t1_stop(x):
     x.dev["t1_running"] = False
+    x.dev["t1_pause"] = None
+
+
+def t1_pause(x):
+    """pause with a value: the timer stops ticking and resumes (start()) T1_PAUSE seconds later - unless it is
+    started/stopped/completed before, or its mode ends (the timer is stopped when it is removed from the mode)."""
+    x.dev["t1_running"] = False
+    x.dev["t1_pause"] = {"deadline": x.now + T1_PAUSE, "seq": x.dev["seq"]["m1"], "owner": x.pnum}
 
 
 def t1_add(x):
@@ -483,6 +498,7 @@ EFFECTS = {
     "ev_t1_stop": [("m1", t1_stop)],
     "ev_t1_add": [("m1", t1_add)],
     "ev_t1_jump": [("m1", t1_jump)],
+    "ev_t1_pause": [("m1", t1_pause)],
     "ev_score": [("m2", var_add("score", 50)), ("m1", var_add("score", 100))],
     "ev_float": [("m1", var_add("pv_float", 0.25))],
     "ev_str1": [("m1", var_set("pv_str", "set1"))],
@@ -552,6 +568,7 @@ def model_load(x, mode):
     # the timer (re)starts from its start value every time the mode loads
     x.ps["vars"][TICK] = 0
     dev["t1_running"] = False
+    dev["t1_pause"] = None
     if x.cfg.get("t1_run"):
         t1_start(x)
 
@@ -568,6 +585,7 @@ def model_unload(dev, mode):
     dev["pending_enable"][mode] = []
     if mode == "m1":
         dev["t1_running"] = False
+        dev["t1_pause"] = None
         dev["c_np"] = None
         dev["dl"] = []
 
